@@ -236,6 +236,34 @@ def wall_time():
     return EPOCH + (lp._vt if lp is not None else 0.0)
 
 
+class _Clock:
+    """Stands in for ``time`` wherever streamz reads the wall clock: works both as
+    the function (``from time import time``) and as the module (``import time``)."""
+    def __call__(self):
+        return wall_time()
+
+    def time(self):
+        return wall_time()
+
+    def monotonic(self):
+        return wall_time()
+
+    def perf_counter(self):
+        return wall_time()
+
+    def sleep(self, d):
+        lp = _current[0]
+        if lp is not None and d > 0:
+            lp.advance(d)          # a blocking sleep on the loop thread is a stall
+
+    def __getattr__(self, name):
+        import time as _t
+        return getattr(_t, name)
+
+
+CLOCK = _Clock()
+
+
 class _SimPolicy(asyncio.DefaultEventLoopPolicy):
     """Every loop anybody creates is a SimLoop (tornado's
     ``IOLoop(make_current=False)`` -> ``asyncio.new_event_loop()``)."""
@@ -302,7 +330,10 @@ def install_seams():
     import tornado.platform.asyncio as tpa
     tpa.BaseAsyncIOLoop.time = lambda self: self.asyncio_loop.time()
 
-    streamz.core.time = wall_time
+    streamz.core.time = CLOCK
+    # also for code that reaches the wall clock as time.time() (whatever the import style)
+    import time as _time_module
+    _time_module.time = CLOCK.time
 
 
 def new_loop(tiebreak='fifo', tiebreak_seed=0):
